@@ -212,12 +212,12 @@ func init() {
 				if orderDefault == "" {
 					failShape("sorted(): the comparison uses `order`, which is not defined")
 				}
-				return "fun reverse : bool => if reverse then " + coqString(orderReverse) + " else " + coqString(orderDefault)
+				return "fun reverse : bool => if reverse then " + coqString(orderReverse) + "%string else " + coqString(orderDefault) + "%string"
 			}
 			if !token.IsIdentifier(x) {
 				failShape("sorted(): the comparison operator %s is not a constant", x)
 			}
-			return "fun _ : bool => " + coqString(x)
+			return "fun _ : bool => " + coqString(x) + "%string"
 		}
 		// post-processing between the sort and the return
 		postReverse := "false"
@@ -232,7 +232,7 @@ func init() {
 		}
 		matchShape("sorted() (return)", stmtText(fsB, rest[len(rest)-1]), `{ return l }`)
 
-		return genHeader +
+		return "From Coq Require Import List String. Import ListNotations.\n" +
 			"(* pyDict.Operator, case Union (objects.go), statement by statement *)\n" +
 			"Inductive uside := ULeft | URight.\n" +
 			"Inductive ustep :=\n" +
